@@ -509,7 +509,7 @@ class Program:
         if c.id in self.bodies:
             out.append(c.id)
         visible = self.crate_deps.get(c.body.krate, {c.body.krate})
-        if (c.kind == "virtual" or not c.res or c.id not in self.bodies) and c.orig in self.trait_impls:
+        if (c.kind == "virtual" or not c.res) and c.orig in self.trait_impls:
             for i in self.trait_impls[c.orig]:
                 if i in self.bodies and i not in out and self.bodies[i].krate in visible:
                     out.append(i)
@@ -637,6 +637,7 @@ class Slice:
         self.stmts = []
         self.places = []
         self.opaque_calls = []
+        self.partial = set()
         work = list(roots)
         defs = body.defs
         while work and len(self.locals) < max_nodes:
@@ -680,6 +681,43 @@ class Slice:
 
     def _place(self, p, work):
         self.places.append(p)
+        # field-sensitive step through struct literals: `s.f` where every definition of `s` is an aggregate with named
+        # fields follows only the operand of field f
+        if len(p) > 1 and isinstance(p[1], dict) and "f" in p[1] and p[0] not in self.locals:
+            defs = self.body.defs.get(p[0], [])
+            aggs = [d for d in defs if d[2] == "assign" and len(d[3]["p"]) == 1 and d[3]["r"]["k"] == "Agg" and d[3]["r"].get("ak") == "adt"]
+            if defs and len(aggs) == len([d for d in defs if d[2] != "assign" or len(d[3]["p"]) == 1]) and aggs and not (1 <= p[0] <= self.body.argc):
+                fname = p[1].get("n")
+                ok = True
+                ops = []
+                for d in aggs:
+                    r = d[3]["r"]
+                    if fname in r.get("fields", []):
+                        idx = r["fields"].index(fname)
+                        if idx < len(r["o"]):
+                            ops.append(r["o"][idx])
+                        else:
+                            ok = False
+                    else:
+                        ok = False
+                # partial writes `s.g = ..` to other fields do not matter; writes to this field do
+                for d in defs:
+                    if d[2] == "assign" and len(d[3]["p"]) > 1:
+                        e = d[3]["p"][1]
+                        if isinstance(e, dict) and e.get("n") == fname:
+                            for o in d[3]["r"].get("o", []):
+                                ops.append(o)
+                if ok:
+                    fs = place_fields(p)
+                    if fs:
+                        self.fields.add(tuple(fs))
+                    self.partial.add(p[0])
+                    for o in ops:
+                        self._operand(o, work)
+                    for e in p[1:]:
+                        if isinstance(e, dict) and "i" in e:
+                            work.append(e["i"])
+                    return
         work.append(p[0])
         fs = place_fields(p)
         if fs:
